@@ -45,11 +45,35 @@ impl Default for SupervisionTree {
 impl SupervisionTree {
     /// Transactionally replace a child's supervisor and update both parents' child sets.
     pub(crate) fn link(child: &ActorCell, supervisor: ActorCell) -> bool {
+        Self::link_below(
+            child,
+            supervisor,
+            super::actor_cell::ActorStatus::Draining,
+        )
+    }
+
+    /// The link `start` makes for the actor it is starting. A `drain()` that arrived while
+    /// `pre_start` was running has already lifted the child to `Draining`; the child is
+    /// nevertheless about to run its loop (handle its backlog, then stop with "Drained"), so it
+    /// is linked like a running one. Only a child that is already shutting down is refused.
+    pub(crate) fn link_starting(child: &ActorCell, supervisor: ActorCell) -> bool {
+        Self::link_below(
+            child,
+            supervisor,
+            super::actor_cell::ActorStatus::Stopping,
+        )
+    }
+
+    fn link_below(
+        child: &ActorCell,
+        supervisor: ActorCell,
+        child_limit: super::actor_cell::ActorStatus,
+    ) -> bool {
         #[cfg(feature = "verif")]
         crate::verif::point("tree.link");
         let _mutation_guard = TREE_MUTATION_LOCK.lock().unwrap();
 
-        if child.get_status() >= super::actor_cell::ActorStatus::Draining
+        if child.get_status() >= child_limit
             || supervisor.get_status() >= super::actor_cell::ActorStatus::Draining
         {
             return false;
